@@ -319,7 +319,9 @@ def run(ctx):
         (r.ADD_HELPER.name, 'size', 'fetch_add', '1_usize'), (r.TAKE.name, 'size', 'fetch_sub', '1_usize'), (r.CLEAR.name, 'size', 'fetch_sub', 'len'),
         (r.ADD_HELPER.name, 'available', 'fetch_add', '1_isize'), (r.OBJ_DROP.name, 'available', 'fetch_add', '1_isize'), (r.CLEAR.name, 'available', 'fetch_sub', 'len'),
     ])
-    extra = [x for x in got if x not in exp and not (gg and strip_generics(gg) in x[0])]
+    # the up-front decrement of the in-flight guard may sit in the guard's constructor or (after normalisation) in the getters
+    inflight = {(r.TRY_GET.name, 'available', 'fetch_sub', '1_isize'), (r.TIMEOUT_GET.name, 'available', 'fetch_sub', '1_isize')}
+    extra = [x for x in got if x not in exp and x not in inflight and not (gg and strip_generics(gg) in x[0])]
     missing = [x for x in exp if x not in got]
     ctx.ob('R05.6', 'size / available are updated exactly next to the queue operation they describe', not extra and not missing, '',
            'unexpected %s, missing %s' % (extra, missing), construct='counter-table', sites=[str(x) for x in got])
@@ -374,11 +376,17 @@ def run(ctx):
         gn = [x for x in prog.bodies.values() if x.name.startswith(strip_generics(r.GETGUARD) + '::')]
         subs = [(x.name, strip_generics(list(blk.term.callee_names())[0]).split('::')[-1], prog.an(x).resolve_operand(blk.term.args[1])) for x in gn + gd for blk in x.blocks
                 if blk.term.kind == 'call' and not blk.cleanup and any('atomic' in n_ and n_.split('::')[-1] in ('fetch_add', 'fetch_sub') for n_ in blk.term.callee_names())]
-        ops = sorted((o, a) for _, o, a in subs)
+        # the -1 may have been inlined into the getters (normal form)
+        for gb in (r.TRY_GET, r.TIMEOUT_GET):
+            for blk, op_, amt_ in r.atomic_calls(gb, r.AVAIL):
+                if op_ == 'fetch_sub' and not any(n_ == gb.name for n_, o, a in subs):
+                    subs.append((gb.name, op_, amt_))
+        ops = sorted({(o, a) for _, o, a in subs})
         if gd:
             gan = prog.an(gd[0])
             fa_ = [blk for blk in gd[0].blocks if blk.term.kind == 'call' and not blk.cleanup and any(n_.endswith('::fetch_add') for n_ in blk.term.callee_names())]
-            esc = gan.reach([0], ('normal',), avoid=[x.idx for x in fa_])
+            skip = armed_flag_skips(prog, r, gd[0], fa_)
+            esc = gan.reach([0], ('normal',), avoid=[x.idx for x in fa_] + skip)
             ctx.ob('R05.7', 'the guard restores available on every path of its Drop', bool(fa_) and not any(e in esc for e in gan.exits()['return']), ctx.where(gd[0]),
                    'the +1 in Drop is conditional: a get that ends without an object can leave available decremented', construct='getguard-drop-conditional')
         ctx.ob('R05.7', 'the guard undoes exactly what it did (-1 on creation, +1 on drop)', ops == [('fetch_add', '1_isize'), ('fetch_sub', '1_isize')] and
@@ -388,20 +396,71 @@ def run(ctx):
     ctx.assumptions += ['tokio Semaphore semantics', 'std Vec / Mutex']
 
 
+def armed_flag_skips(prog, r, gd, restores):
+    """`armed`-flag form of the guard: arms of bool switches in the guard's Drop that skip the restore and are taken only
+    for a guard that was disarmed: the switch tests one bool field of the guard, every construction of the guard sets
+    that field to the other value, and the only writes of the skipping value are in methods that consume the guard
+    (the disarm functions, whose call sites the disarm rule examines)."""
+    gan = prog.an(gd)
+    out = []
+    for blk in gd.blocks:
+        t = blk.term
+        if t.kind != 'switch' or t.j.get('dty') != 'bool' or blk.cleanup:
+            continue
+        src = sources(gan, t.discr)
+        flds = {s[1] for s in src if s[0] == 'field' and s[1].startswith(r.GETGUARD + '.')}
+        rest = [s for s in src if s[0] not in ('field', 'arg') and not (s[0] == 'bin' and s[1] == 'Not')]
+        if len(flds) != 1 or rest:
+            continue
+        fld = list(flds)[0].split('.')[-1]
+        neg = len([s for s in src if s[0] == 'bin' and s[1] == 'Not']) % 2 == 1
+        arms = dict(t.switch_arms())
+        for lab in ('true', 'false'):
+            tgt = arms.get(lab)
+            if tgt is None:
+                continue
+            if any(x.idx in gan.reach([tgt], ('normal',)) for x in restores):
+                continue
+            skip_value = (lab == 'true') != neg          # value of the field on the skipping arm
+            ctor_vals = []; writes = []
+            for b in prog.bodies.values():
+                for bl in b.blocks:
+                    for s in bl.stmts:
+                        if s.kind != 'assign':
+                            continue
+                        if s.rv.kind == 'agg' and s.rv.j.get('adt') == r.GETGUARD and fld in s.rv.j.get('fields', []):
+                            ctor_vals.append(prog.an(b).resolve_operand(s.rv.ops[s.rv.j['fields'].index(fld)]))
+                        elif s.place.has_field(r.GETGUARD, fld):
+                            consuming = b.arg_count >= 1 and adt_of(b.locals[1]['ty']) == r.GETGUARD and not b.locals[1]['ty'].startswith('&') and b.j.get('impl_trait') != 'std::ops::Drop'
+                            writes.append((prog.an(b).resolve_operand(s.rv.ops[0]) if s.rv.kind == 'use' else '?', consuming))
+            want_ctor = 'false' if skip_value else 'true'
+            want_write = 'true' if skip_value else 'false'
+            if ctor_vals and all(v == want_ctor for v in ctor_vals) and writes and all(v == want_write and c for v, c in writes):
+                out.append(tgt)
+    return out
+
+
 def cleanup_unconditional(ctx, r, rule):
-    """the clearing function is reached on every path on which the pool is closed (outside close() itself)"""
+    """whenever an object has been pushed back (return path), every path to the return passes the clearing function or
+    the branch on which the pool reported itself open (no further condition may skip the clean-up of a closed pool)"""
     prog = ctx.prog
     if r.CLEAR is None:
         return
-    for cp, bb, k in prog.callers_of(r.CLEAR.path):
-        cb = prog.bodies[cp]
-        if cp == r.CLOSE.path:
-            continue
-        can = prog.an(cb)
-        conds = [blk for blk in cb.blocks if blk.term.kind == 'switch' and blk.term.j.get('dty') == 'bool' and
-                 any(s[0] == 'call' and s[1].endswith('is_closed') for s in sources(can, blk.term.discr))]
-        falses = [dict(x.term.switch_arms())['false'] for x in conds]
-        esc = can.reach([0], ('normal',), avoid=[bb] + falses)
-        okc = bool(conds) and not any(e in esc for e in can.exits()['return'])
-        ctx.ob(rule, 'a closed pool is always cleared when an object comes back (no further condition)', okc, ctx.where(cb, cb.blocks[bb].term.line),
-               'the clean-up can be skipped although the pool is closed: an object returned then stays in the closed pool' if not okc else '', construct='cleanup-conditional:' + cb.name)
+    b = r.OBJ_DROP
+    an = prog.an(b)
+    pushes = [x for x, m in r.queue_calls(b) if m == 'push']
+    clears = [x.idx for x in b.blocks if x.term.kind == 'call' and not x.cleanup and x.term.rcallee in prog.bodies and r.CLEAR.path in prog.region([x.term.rcallee])]
+    conds = []
+    for blk in b.blocks:
+        if blk.term.kind == 'switch' and blk.term.j.get('dty') == 'bool':
+            src = sources(an, blk.term.discr)
+            if any(s[0] == 'call' and (s[1].endswith('is_closed') or s[1].endswith('try_acquire_many')) for s in src):
+                conds.append(blk)
+    # helpers that test is_closed internally and clear (e.g. a kept clean_up function) count as the clean-up itself
+    falses = [dict(x.term.switch_arms())['false'] for x in conds]
+    for p_ in pushes:
+        esc = an.reach_after(p_.idx, ('normal',), avoid=clears + falses)
+        okc = bool(clears) and not any(e in esc for e in an.exits()['return'])
+        ctx.ob(rule, 'a closed pool is always cleared when an object comes back (no further condition)', okc, ctx.where(b, p_.term.line),
+               'after the push a path reaches the end of the return path without clearing and without having found the pool open: an object returned to a closed pool can stay in it'
+               if not okc else '', construct='cleanup-conditional:' + b.name)
